@@ -506,6 +506,9 @@ func c08Many(n, st int, r *engine.Result) []engine.Violation {
 				if !run(order, "no duplicate") {
 					return
 				}
+				if st >= 6 && n > 20 {
+					continue // (duplicates: covered for these lengths with the smaller strides)
+				}
 				for i := 0; i < n-1; i++ {
 					for j := i + 1; j < n; j++ {
 						o2 := append(append(append([]int{}, order[:j]...), order[i]), order[j:]...)
@@ -665,7 +668,7 @@ func c08Run(job, tier string, deadline time.Time) *engine.Result {
 		}
 		r.States = r.Execs + 1
 		r.Outcomes = []uint64{engine.Hash(job, len(r.Violations))}
-		r.Bound = fmt.Sprintf("datagram of %d one-unit fragments; arrival orders = every permutation and direction of the %d residue classes mod %d, each also with one duplicate of any fragment inserted at any later position", n, st, st)
+		r.Bound = fmt.Sprintf("datagram of %d one-unit fragments; arrival orders = every permutation and direction of the %d residue classes mod %d, each also with one duplicate of any fragment inserted at any later position (not for stride 6 with more than 20 fragments)", n, st, st)
 		r.Sample(map[string]interface{}{"many": r.Bound})
 		return r
 	}
